@@ -125,6 +125,18 @@ def r_track(ctx):
                 break
         if bad:
             break
+    if bad is None:
+        # an object of another kind in the tracked list is an error, not something to skip
+        alien = SymObj("Point", label="alien")
+        duals = [SymObj("dual", label="residual"), SymObj("dual", label="d0")]
+        it = IndexInterp({"self." + TRACKED: [alien], "Constraint": ("type", "Constraint"), "PSDMatrix": ("type", "PSDMatrix")},
+                         on_call=lambda node, it0: (list(duals), duals[0]) if call_name(node) == "_recover_dual_values" else NotImplemented)
+        try:
+            it.run(fn.body)
+            bad = "a tracked object that is neither a Constraint nor a PSDMatrix is skipped silently (its multiplier is lost and the following ones still line up by luck)"
+        except AnalysisError as e:
+            if "raises" not in str(e):
+                bad = "not interpretable: %s" % e
     ctx.ob("R-TRACK", "Wrapper.assign_dual_values::alignment", bad is None,
            "for every sequence of tracked kinds (length <= 3) object k stores recovered multiplier k+1 and the residual is returned" if bad is None else bad, loc(fn, fn))
     # each back-end's recovery emits the residual first, then one element per tracked object on every branch
@@ -184,280 +196,102 @@ def shape_aliases(fn):
     return out
 
 
-class _ShapeEval(Evaluator):
-    """Counts as polynomials in the shape symbols s0, s1."""
-
-    def name(self, node):
-        raise AnalysisError("unbound name %s in a slot count" % node.id)
-
-    def subscript(self, node):
-        if isinstance(node.value, ast.Attribute) and node.value.attr == "shape" and is_const(node.slice) and node.slice.value in (0, 1):
-            return Rat.sym("s%d" % node.slice.value)
-        raise AnalysisError("subscript %s in a slot count" % src(node))
-
-    def attribute(self, node):
-        raise AnalysisError("attribute %s in a slot count" % src(node))
 
 
-def _loop_trip(loop, ev):
-    """Trip count of `for v in range(<expr>)`."""
-    it = loop.iter
-    if isinstance(it, ast.Call) and call_name(it) == "range" and len(it.args) == 1:
-        return ev.ev(it.args[0])
-    raise AnalysisError("loop `%s` is not a range loop" % src(it))
 
 
 def r_slots(ctx):
+    """cvxpy: what the send methods append to the solver-constraint list and what the recovery reads back, end to end (sa/miniint.py).
+    The two send methods and set_main_variables are unrolled to get the block of solver constraints each tracked object contributes (a scalar
+    constraint: one; an n x n LMI: `M >> 0` first, then n * n entry equalities); then _recover_dual_values is unrolled, for every sequence of
+    tracked kinds up to length 3 with LMIs of size 1 and 2, on a problem whose constraints are those blocks in order: it must return the dual of the
+    Gram constraint first (also as residual), then, for each tracked object in order, the dual of the first solver constraint of its own block."""
+    from ..miniint import IndexInterp, SymObj, is_token
+    import itertools as _it
     repo = ctx.repo
     resolve_names(repo)
     be = _be(repo, "cvxpy")
-    ev = _ShapeEval(shape_aliases(be.methods["send_lmi_constraint_to_solver"]))
-    where_be = be.module.rel
-    # producer, scalar: exactly one solver constraint per scalar constraint
-    fn = be.methods["send_constraint_to_solver"]
+    send_c, send_p, rec = be.methods["send_constraint_to_solver"], be.methods["send_lmi_constraint_to_solver"], be.methods["_recover_dual_values"]
+    main = be.methods["set_main_variables"]
+    ctx.unit(qualname(rec))
 
-    def is_solver_append(n):
-        return (isinstance(n, ast.Call) and call_name(n) in ("append",) and dotted(n.func.value) == "self." + SOLVER_CONS)
-
-    def is_solver_aug(s):
-        return isinstance(s, ast.AugAssign) and dotted(s.target) == "self." + SOLVER_CONS
-
-    pc = flow.path_counts(fn.body, is_solver_append, is_solver_aug)
-    normal = pc.get("next", set()) | pc.get("return", set())
-    ok = normal == {1}
-    ctx.ob("R-SLOTS", "CvxpyWrapper.send_constraint_to_solver::emits 1", ok,
-           "one solver constraint per scalar constraint" if ok else "solver constraints emitted per scalar constraint: %s" % sorted(normal), loc(fn, fn))
-    # producer, LMI
-    fn = be.methods["send_lmi_constraint_to_solver"]
-    ctx.unit(qualname(fn))
-    augs = [s for s in flow.stmts_of(fn, ast.AugAssign) if dotted(s.target) == "self." + SOLVER_CONS]
-    direct = [n for n in ast.walk(fn) if is_solver_append(n)]
-    exts = [n for n in ast.walk(fn) if isinstance(n, ast.Call) and call_name(n) == "extend" and dotted(n.func.value) == "self." + SOLVER_CONS]
-    prod = None
-    first_is_psd = False
-    msg = ""
-    if len(augs) + len(exts) == 1 and not direct:
-        lst = augs[0].value if augs else exts[0].args[0]
-        if isinstance(lst, ast.Name):
-            prod, first_is_psd, msg = _count_local_list(fn, lst.id, ev)
+    def block_of_obj(kind, size):
+        """number of solver constraints a send call appends"""
+        fn = send_c if kind == "C" else send_p
+        psd = params_of(fn)[-1] if kind == "P" else None
+        env = {"self." + TRACKED: [], "self." + SOLVER_CONS: [], "self.verbose": 0}
+        prm = params_of(fn)
+        if kind == "C":
+            env[prm[1] + ".equality_or_inequality"] = "inequality"
         else:
-            msg = "solver constraints extended by `%s`" % src(lst)
-    else:
-        msg = "%d extensions and %d direct appends of the solver-constraint list" % (len(augs) + len(exts), len(direct))
-    want = Rat(1) + Rat.sym("s0") * Rat.sym("s1")
-    okp = prod is not None and prod.equals(want)
-    ctx.ob("R-SLOTS", "CvxpyWrapper.send_lmi_constraint_to_solver::emits 1 + s0*s1", okp,
-           "an LMI emits the PSD constraint plus one equality per entry (%s)" % prod if okp else
-           "an LMI emits %s solver constraints (%s); the recovery skips 1 + s0*s1" % (prod, msg), loc(fn, fn))
-    ctx.ob("R-SLOTS", "CvxpyWrapper.send_lmi_constraint_to_solver::PSD constraint first", first_is_psd,
-           "the matrix inequality is the first constraint of the block, where the recovery reads the matrix multiplier" if first_is_psd else
-           "the first solver constraint of an LMI block is not `M >> 0`: the recovery reads the matrix multiplier at the wrong slot", loc(fn, fn))
-    # producer, Gram: set_main_variables appends exactly the Gram PSD constraint
-    fn = be.methods["set_main_variables"]
-    apps = [n for n in ast.walk(fn) if is_solver_append(n)]
-    okg = len(apps) == 1 and isinstance(apps[0].args[0], ast.BinOp) and isinstance(apps[0].args[0].op, ast.RShift) \
-        and dotted(apps[0].args[0].left) == "self.G" and not flow.conditions_guarding(common.stmt_of(apps[0]))
-    ctx.ob("R-SLOTS", "CvxpyWrapper.set_main_variables::Gram constraint is slot 0", okg,
-           "`self.G >> 0` is the only (hence first) solver constraint created with the main variables" if okg else
-           "set_main_variables does not append exactly `self.G >> 0`", loc(fn, fn))
-    init = be.methods["__init__"]
-    inits = [s for s in flow.stmts_of(init, ast.Assign) if any(dotted(t) == "self." + SOLVER_CONS for t in s.targets)]
-    oki = len(inits) == 1 and src(inits[0].value) in ("list()", "[]")
-    ctx.ob("R-SLOTS", "CvxpyWrapper.__init__::solver constraints start empty", oki, "starts from an empty list" if oki else "does not start from an empty list", loc(init, init))
-    # consumer
-    fn = be.methods["_recover_dual_values"]
-    ctx.unit(qualname(fn))
-    temp = None
-    for s in flow.stmts_of(fn, ast.Assign):
-        if isinstance(s.value, ast.ListComp) and any(isinstance(n, ast.Attribute) and n.attr == "dual_value" for n in ast.walk(s.value)):
-            temp = s.targets[0].id
-            gen = s.value.generators[0]
-            okt = dotted(gen.iter) in ("self.prob.constraints", "self." + SOLVER_CONS) and not gen.ifs
-            ctx.ob("R-SLOTS", "CvxpyWrapper._recover_dual_values::reads every solver constraint", okt,
-                   "multipliers are read from all problem constraints in order" if okt else "multipliers are read from `%s`%s" % (src(gen.iter), " with a filter" if gen.ifs else ""),
-                   loc(fn, s))
-    if temp is None:
-        raise AnalysisError("CvxpyWrapper._recover_dual_values: list of solver multipliers not found")
-    out = _returned_list_name(fn)
-    res_name = [r for r in ast.walk(fn) if isinstance(r, ast.Return)][0].value.elts[1].id
-    rdef = [s for s in flow.stmts_of(fn, ast.Assign) if any(isinstance(t, ast.Name) and t.id == res_name for t in s.targets)]
-    okr = len(rdef) == 1 and isinstance(rdef[0].value, ast.Subscript) and dotted(rdef[0].value.value) == temp and is_const(rdef[0].value.slice, 0)
-    ctx.ob("R-SLOTS", "CvxpyWrapper._recover_dual_values::residual is slot 0", okr,
-           "the Gram residual is read at slot 0" if okr else "the residual is `%s`" % (src(rdef[0].value) if rdef else "?"), loc(fn, fn))
-    loops = [l for l in flow.stmts_of(fn, ast.For) if dotted(l.iter) == "self." + TRACKED]
-    if len(loops) != 1:
-        raise AnalysisError("CvxpyWrapper._recover_dual_values: loop over tracked objects not found")
-    lp = loops[0]
-    # cursor = the name indexing the multiplier list in the appended value
-    cursor = None
-    for n in ast.walk(lp):
-        if isinstance(n, ast.Call) and call_name(n) == "append" and dotted(n.func.value) == out and n.args \
-                and isinstance(n.args[0], ast.Subscript) and dotted(n.args[0].value) == temp and isinstance(n.args[0].slice, ast.Name):
-            cursor = n.args[0].slice.id
-    if cursor is None:
-        ctx.ob("R-SLOTS", "CvxpyWrapper._recover_dual_values::cursor", False, "no read `%s[<cursor>]` appended to the recovered list" % temp, loc(fn, lp))
-        return
-    cinit = [s for s in fn.body if isinstance(s, ast.Assign) and any(isinstance(t, ast.Name) and t.id == cursor for t in s.targets) and s.lineno < lp.lineno]
-    okc = len(cinit) == 1 and is_const(cinit[0].value, 1)
-    ctx.ob("R-SLOTS", "CvxpyWrapper._recover_dual_values::cursor starts at 1", okc,
-           "the read cursor starts after the Gram slot" if okc else "the read cursor starts at `%s`" % (src(cinit[0].value) if cinit else "?"), loc(fn, lp))
-    from ..absint import PathEval, bool_decider
-    el = lp.target.id if isinstance(lp.target, ast.Name) else None
-    for kind, want_adv in (("Constraint", Rat(1)), ("PSDMatrix", Rat(1) + Rat.sym("s0") * Rat.sym("s1"))):
-        def atom(t, kind=kind):
-            if isinstance(t, ast.Call) and call_name(t) == "isinstance" and len(t.args) == 2 and dotted(t.args[0]) == el:
-                ks = t.args[1].elts if isinstance(t.args[1], ast.Tuple) else [t.args[1]]
-                return kind in {dotted(x) for x in ks}
-            return None
-        fb = ast.FunctionDef(name="_tracked", args=ast.arguments(posonlyargs=[], args=[], kwonlyargs=[], kw_defaults=[], defaults=[]), body=lp.body, decorator_list=[])
-        results = set()
-        detail = ""
-        for pth in PathEval(fb, bool_decider(atom), loop_mode="once").run():
-            if pth.kind == "raise":
-                if pth.exc != "AssertionError":
-                    results.add(("raise", pth.exc))
-                continue
-            adv = Rat(0)
-            read_off = None
-            env = dict(shape_aliases(fn))
-            bad = None
-            for evn in pth.trace:
-                if isinstance(evn, ast.Assign) and isinstance(evn.targets[0], ast.Name) and evn.targets[0].id != cursor:
-                    try:
-                        env[evn.targets[0].id] = _ShapeEval(env).ev(evn.value)
-                    except AnalysisError:
-                        pass
-                if isinstance(evn, ast.Expr) and isinstance(evn.value, ast.Call) and call_name(evn.value) == "append" and dotted(evn.value.func.value) == out:
-                    a = evn.value.args[0]
-                    if isinstance(a, ast.Subscript) and dotted(a.value) == temp and isinstance(a.slice, ast.Name) and a.slice.id == cursor:
-                        read_off = adv
-                    else:
-                        bad = "appended value `%s` is not read at the cursor" % src(a)
-                if isinstance(evn, ast.AugAssign) and isinstance(evn.target, ast.Name) and evn.target.id == cursor:
-                    if not isinstance(evn.op, ast.Add):
-                        bad = "cursor updated with %s" % type(evn.op).__name__
-                    else:
-                        try:
-                            adv = adv + _ShapeEval(env).ev(evn.value)
-                        except AnalysisError as e:
-                            bad = str(e)
-            results.add(("ok", str(adv), str(read_off)) if bad is None else ("bad", bad))
-            if bad:
-                detail = bad
-        want = {("ok", str(want_adv), str(Rat(0)))}
-        ok = results == want
-        ctx.ob("R-SLOTS", "CvxpyWrapper._recover_dual_values::advance for %s" % kind, ok,
-               "reads the multiplier at the cursor, then advances by %s = number of solver constraints emitted" % want_adv if ok else
-               "for a tracked %s the recovery does %s; the sender emits %s solver constraints with the multiplier of interest first%s"
-               % (kind, sorted(results), want_adv, (" (" + detail + ")") if detail else ""), loc(fn, lp))
-        ctx.sample({"rule": "R-SLOTS", "kind": kind, "emitted": str(want_adv), "recovery": [list(r) for r in results]})
-
-
-def _count_local_list(fn, name, ev):
-    """Symbolic length of local list `name` at the end of fn; whether element 0 is `X >> 0`."""
-    total = None
-    first_psd = False
-    why = ""
-    for s in fn.body:
-        if isinstance(s, ast.Assign) and any(isinstance(t, ast.Name) and t.id == name for t in s.targets):
-            if isinstance(s.value, ast.List):
-                total = Rat(len(s.value.elts))
-                first_psd = bool(s.value.elts) and _is_psd(s.value.elts[0])
-            elif isinstance(s.value, ast.Call) and call_name(s.value) == "list" and not s.value.args:
-                total = Rat(0)
-            else:
-                return None, False, "list initialised by `%s`" % src(s.value)
-        elif total is not None:
-            total = total + _count_appends(s, name, ev, Rat(1))
-            if total.equals(Rat(1)) and not first_psd:
-                # first element appended later
-                for n in ast.walk(s):
-                    if isinstance(n, ast.Call) and call_name(n) == "append" and dotted(n.func.value) == name and n.args and _is_psd(n.args[0]) \
-                            and not flow.in_loop(common.stmt_of(n)):
-                        first_psd = True
-    return total, first_psd, why
-
-
-def _is_psd(e):
-    return isinstance(e, ast.BinOp) and isinstance(e.op, ast.RShift) and is_const(e.right, 0)
-
-
-def _count_appends(stmt, name, ev, mult):
-    if isinstance(stmt, ast.For):
-        trip = _loop_trip(stmt, ev)
-        tot = Rat(0)
-        for s in stmt.body:
-            tot = tot + _count_appends(s, name, ev, mult * trip)
-        return tot
-    if isinstance(stmt, ast.If):
-        a = sum((_count_appends(s, name, ev, mult) for s in stmt.body), Rat(0))
-        b = sum((_count_appends(s, name, ev, mult) for s in stmt.orelse), Rat(0))
-        if not a.equals(b):
-            raise AnalysisError("conditional emission of solver constraints in an LMI block")
-        return a
+            env[psd + ".shape"] = (size, size)
+            if len(prm) > 2:
+                env[prm[1]] = 0
+        it = IndexInterp(env, symbolic={prm[-1]} if kind == "P" else {prm[1]},
+                         on_call=lambda node, it0: ("tr", it0.ev(node.args[0])) if call_name(node) == TRANSLATE and len(node.args) == 1 else
+                         (True if call_name(node) == "isinstance" else NotImplemented))
+        it.run(fn.body)
+        sc = it.env.get("self." + SOLVER_CONS)
+        if not isinstance(sc, list):
+            raise AnalysisError("%s does not extend self.%s" % (fn.name, SOLVER_CONS))
+        return len(sc)
+    msg = None
     n = 0
-    for c in ast.walk(stmt):
-        if isinstance(c, ast.Call) and call_name(c) == "append" and dotted(c.func.value) == name:
-            n += 1
-    extra = Rat(0)
-    if isinstance(stmt, ast.AugAssign) and isinstance(stmt.target, ast.Name) and stmt.target.id == name:
-        extra = _list_len(stmt.value, ev)
-    for c in ast.walk(stmt):
-        if isinstance(c, ast.Call) and call_name(c) == "extend" and dotted(c.func.value) == name and c.args:
-            extra = extra + _list_len(c.args[0], ev)
-    return mult * (Rat(n) + extra)
+    try:
+        itm = IndexInterp({"self." + SOLVER_CONS: [], "self." + TRACKED: [], "Point.counter": 3, "Expression.counter": 4, "self.verbose": 0})
+        itm.run(main.body)
+        n_main = len(itm.env.get("self." + SOLVER_CONS) or [])
+        if n_main != 1:
+            msg = "set_main_variables contributes %d solver constraints before any tracked object; the recovery reads the residual at position 0" % n_main
+        sizes = {("C", 0): block_of_obj("C", 0), ("P", 1): block_of_obj("P", 1), ("P", 2): block_of_obj("P", 2)}
+        for length in (0, 1, 2, 3):
+            if msg:
+                break
+            for kinds in _it.product((("C", 0), ("P", 1), ("P", 2)), repeat=length):
+                n += 1
+                objs = [SymObj("Constraint" if k == "C" else "PSDMatrix", shape=(sz, sz), label="o%d" % i) for i, (k, sz) in enumerate(kinds)]
+                cons = [SymObj("solver-constraint", dual_value=SymObj("dual", shape=(3, 3), label="gram"))]
+                starts = []
+                for i, kd in enumerate(kinds):
+                    starts.append(len(cons))
+                    for j in range(sizes[kd]):
+                        cons.append(SymObj("solver-constraint", dual_value=SymObj("dual", shape=(kd[1], kd[1]), label="o%d.%d" % (i, j))))
+                env = {"self." + TRACKED: list(objs), "self." + SOLVER_CONS: list(cons), "self.prob.constraints": list(cons), "Point.counter": 3,
+                       "Constraint": ("type", "Constraint"), "PSDMatrix": ("type", "PSDMatrix")}
+                it = IndexInterp(env)
+                ret = it.run(rec.body)
+                label = "tracked kinds %s" % ([k + (str(sz) if k == "P" else "") for k, sz in kinds] or "(none)")
+                if not (isinstance(ret, tuple) and len(ret) == 2 and isinstance(ret[0], list)):
+                    msg = "%s: returns `%r`, expected (list of multipliers, residual)" % (label, ret)
+                    break
+                vals, residual = ret
+                want = [cons[0].attrs["dual_value"]] + [cons[st].attrs["dual_value"] for st in starts]
+                if len(vals) != len(want) or any(v is not w for v, w in zip(vals, want)):
+                    msg = "%s: the recovered list is %s; the Gram dual, then the dual of the first solver constraint of each tracked object's block, is %s" % (
+                        label, [getattr(v, "attrs", {}).get("label", repr(v)) for v in vals], [w.attrs["label"] for w in want])
+                    break
+                if residual is not want[0]:
+                    msg = "%s: the residual is not the dual of the Gram constraint" % label
+                    break
+            if msg:
+                break
+    except AnalysisError as e:
+        msg = "not interpretable: %s" % e
+    ctx.ob("R-SLOTS", "CvxpyWrapper._recover_dual_values::slots of every tracked object", msg is None,
+           "for every sequence of tracked kinds (length <= 3, LMIs of size 1 and 2) the k-th multiplier is the dual of the first solver constraint that object k contributed"
+           if msg is None else msg, loc(rec, rec))
+    ctx.count("cvxpy recovery sequences unrolled", n)
+    return n
 
 
-def _list_len(v, ev):
-    """Symbolic length of a list literal or of a comprehension over range loops without filters."""
-    if isinstance(v, ast.List):
-        return Rat(len(v.elts))
-    if isinstance(v, ast.ListComp) and all(not g.ifs for g in v.generators):
-        tot = Rat(1)
-        for g in v.generators:
-            if isinstance(g.iter, ast.Call) and call_name(g.iter) == "range" and len(g.iter.args) == 1:
-                tot = tot * ev.ev(g.iter.args[0])
-            else:
-                raise AnalysisError("comprehension over `%s`" % src(g.iter))
-        return tot
-    raise AnalysisError("list extended by `%s`" % src(v)[:80])
 
 
-def _cursor_advance(body, cursor, temp, out, ev):
-    adv = Rat(0)
-    read_off = None
-    env = {}
-    for s in body:
-        if isinstance(s, ast.Assign) and isinstance(s.targets[0], ast.Name):
-            try:
-                env[s.targets[0].id] = _ShapeEval(env).ev(s.value)
-            except AnalysisError:
-                pass
-        for n in ast.walk(s):
-            if isinstance(n, ast.Call) and call_name(n) == "append" and dotted(n.func.value) == out:
-                a = n.args[0]
-                if isinstance(a, ast.Subscript) and dotted(a.value) == temp and isinstance(a.slice, ast.Name) and a.slice.id == cursor:
-                    read_off = adv
-                else:
-                    return None, None, "appended value `%s` is not read at the cursor" % src(a)
-        if isinstance(s, ast.Assign) and isinstance(s.targets[0], ast.Name) and s.targets[0].id == cursor and isinstance(s.value, ast.BinOp) \
-                and isinstance(s.value.op, ast.Add) and any(dotted(x) == cursor for x in (s.value.left, s.value.right)):
-            other = s.value.right if dotted(s.value.left) == cursor else s.value.left
-            try:
-                adv = adv + _ShapeEval(env).ev(other)
-            except AnalysisError as e:
-                return None, None, str(e)
-            continue
-        if isinstance(s, ast.AugAssign) and isinstance(s.target, ast.Name) and s.target.id == cursor:
-            if not isinstance(s.op, ast.Add):
-                return None, None, "cursor updated with %s" % type(s.op).__name__
-            try:
-                adv = adv + _ShapeEval(env).ev(s.value)
-            except AnalysisError as e:
-                return None, None, str(e)
-        elif isinstance(s, (ast.If, ast.For, ast.While)) and any(isinstance(n, ast.AugAssign) and isinstance(n.target, ast.Name) and n.target.id == cursor for n in ast.walk(s)):
-            return None, None, "cursor updated inside a nested statement"
-    return adv, read_off, ""
+
+
+
+
+
+
 
 
 # ---------------------------------------------------------------------------------------------------
@@ -555,24 +389,10 @@ def r_sense(ctx):
     mosekprog.r_mosek_rows(ctx, senses)
 
 
-def _sense_literal(test, cons):
-    if isinstance(test, ast.Compare) and len(test.ops) == 1 and isinstance(test.ops[0], ast.Eq):
-        for a, b in ((test.left, test.comparators[0]), (test.comparators[0], test.left)):
-            if dotted(a) == cons + ".equality_or_inequality" and isinstance(b, ast.Constant) and isinstance(b.value, str):
-                return b.value
-    return None
 
 
-def _is_neg_of(e, name):
-    return isinstance(e, ast.UnaryOp) and isinstance(e.op, ast.USub) and dotted(e.operand) == name
 
 
-def _sparse_unpack(fn):
-    for s in flow.stmts_of(fn, ast.Assign):
-        if isinstance(s.value, ast.Call) and call_name(s.value) == "expression_to_sparse_matrices" and isinstance(s.targets[0], ast.Tuple) \
-                and len(s.targets[0].elts) == 6:
-            return [src(e) for e in s.targets[0].elts]
-    return None
 
 
 def r_expr_to_solver(ctx, be):
@@ -1066,58 +886,69 @@ def r_lmienc(ctx):
     be = _be(repo, "cvxpy")
     fn = be.methods["send_lmi_constraint_to_solver"]
     psd = params_of(fn)[-1]
-    sh = {}
-    for s0 in flow.stmts_of(fn, ast.Assign):
-        t0, v0 = s0.targets[0], s0.value
-        if isinstance(t0, ast.Tuple) and len(t0.elts) == 2 and dotted(v0) == psd + ".shape" and all(isinstance(e, ast.Name) for e in t0.elts):
-            sh[t0.elts[0].id] = "%s.shape[0]" % psd
-            sh[t0.elts[1].id] = "%s.shape[1]" % psd
-        if isinstance(t0, ast.Name) and src(v0).replace(" ", "") in ("%s.shape[0]" % psd, "%s.shape[1]" % psd):
-            sh[t0.id] = src(v0).replace(" ", "")
+    cnt = params_of(fn)[1] if len(params_of(fn)) > 2 else None
+    # cvxpy: the method unrolled for 1x1 .. 3x3 LMIs: the LMI is tracked once; the solver receives, in this order, one `M >> 0` on a symmetric
+    # variable of the LMI's shape and one equality M[i, j] == translation(entry (i, j)) per entry (the recovery skips exactly these n * n slots)
+    from ..miniint import IndexInterp, is_token
+    okv = oke = True
+    msgv = "a symmetric variable of the LMI's shape, constrained to be PSD, first of the block"
+    msge = "M[i, j] == translation(entry (i, j)) for every (i, j) of the matrix"
+    for size in (1, 2, 3):
+        env = {psd + ".shape": (size, size), "self." + TRACKED: [], "self." + SOLVER_CONS: [], "self.verbose": 0}
+        if cnt:
+            env[cnt] = 0
 
-    def shape_text(e):
-        """source text with locals bound to the LMI's shape replaced by psd.shape[k]"""
-        n2 = clone(e)
-        for x in ast.walk(n2):
-            if isinstance(x, ast.Name) and x.id in sh:
-                x.id = sh[x.id]
-        return src(n2).replace(" ", "")
-    var = [s for s in flow.stmts_of(fn, ast.Assign) if isinstance(s.value, ast.Call) and call_name(s.value) == "Variable"]
-    okv = len(var) == 1 and var[0].value.args and shape_text(var[0].value.args[0]) in (psd + ".shape", "(%s.shape[0],%s.shape[1])" % (psd, psd)) \
-        and any(k.arg == "symmetric" and is_const(k.value, True) for k in var[0].value.keywords)
-    ctx.ob("R-LMIENC", "CvxpyWrapper.send_lmi_constraint_to_solver::matrix variable", okv,
-           "a symmetric variable of the LMI's shape" if okv else "the auxiliary matrix variable is not symmetric of shape %s.shape" % psd, loc(fn, fn))
-    eqs = [n for n in ast.walk(fn) if isinstance(n, ast.Compare) and isinstance(n.ops[0], ast.Eq) and isinstance(n.left, ast.Subscript)]
-    oke = False
-    if len(eqs) == 1 and var:
-        e = eqs[0]
-        m = var[0].targets[0].id
-        idx = [src(x) for x in e.left.slice.elts] if isinstance(e.left.slice, ast.Tuple) else []
-        r = e.comparators[0]
-        ridx = []
-        if isinstance(r, ast.Call) and call_name(r) == TRANSLATE and isinstance(r.args[0], ast.Subscript) and dotted(r.args[0].value) == psd \
-                and isinstance(r.args[0].slice, ast.Tuple):
-            ridx = [src(x) for x in r.args[0].slice.elts]
-        loops = []       # (iterable, target name)
-        cur = e
-        filtered = False
-        while cur is not None and cur is not fn:
-            par = getattr(cur, "_parent", None)
-            if isinstance(par, ast.ListComp) and cur is par.elt:
-                for g in par.generators:
-                    loops.append((g.iter, g.target.id if isinstance(g.target, ast.Name) else None))
-                    filtered = filtered or bool(g.ifs)
-            if isinstance(par, ast.For) and any(x is cur for x in par.body):
-                loops.append((par.iter, par.target.id if isinstance(par.target, ast.Name) else None))
-            cur = par
-        ranges = sorted(shape_text(it) for it, _ in loops)
-        oke = dotted(e.left.value) == m and idx == ridx and len(idx) == 2 and idx[0] != idx[1] \
-            and ranges == sorted(["range(%s.shape[0])" % psd, "range(%s.shape[1])" % psd]) \
-            and {t for _, t in loops} == set(idx) and not filtered \
-            and not flow.conditions_guarding(common.stmt_of(e), stop=fn)
-    ctx.ob("R-LMIENC", "CvxpyWrapper.send_lmi_constraint_to_solver::entry equalities", oke,
-           "M[i, j] == translation(entry (i, j)) for every (i, j) of the matrix" if oke else
-           "the entry equalities are not `M[i,j] == translation(psd[i,j])` over the full index range", loc(fn, fn))
+        def on_call(node, it):
+            if call_name(node) == TRANSLATE and len(node.args) == 1:
+                return ("tr", it.ev(node.args[0]))
+            if call_name(node) == "isinstance":
+                return True
+            return NotImplemented
+        it = IndexInterp(env, symbolic={psd}, on_call=on_call)
+        try:
+            it.run(fn.body)
+        except AnalysisError as e:
+            okv = oke = False
+            msgv = msge = "send_lmi_constraint_to_solver not interpretable for a %dx%d LMI: %s" % (size, size, e)
+            break
+        tracked = it.env.get("self." + TRACKED)
+        sc = it.env.get("self." + SOLVER_CONS)
+        if not (isinstance(tracked, list) and tracked == [("array", psd)]):
+            okv, msgv = False, "the LMI is recorded %s in the tracked list" % ("%d times" % len(tracked) if isinstance(tracked, list) else "not")
+            break
+        if not (isinstance(sc, list) and len(sc) == 1 + size * size):
+            oke, msge = False, "a %dx%d LMI adds %s solver constraints, expected 1 + %d (the recovery skips that many slots)" % (
+                size, size, len(sc) if isinstance(sc, list) else "?", size * size)
+            break
+        first = sc[0]
+        var = None
+        if is_token(first) and first[0] == "op" and first[1] == "RShift" and first[3] == 0:
+            var = first[2]
+        okvar = is_token(var) and var[0] == "call" and var[1].split(".")[-1] == "Variable" and var[2] and tuple(var[2][0]) == (size, size) \
+            and dict(var[3]).get("symmetric") is True
+        if not okvar:
+            okv, msgv = False, "the first solver constraint of the block is `%r`, expected `M >> 0` with M = Variable(shape of the LMI, symmetric=True)" % (first,)
+            break
+        got = []
+        for c in sc[1:]:
+            ok1 = is_token(c) and c[0] == "cmp" and c[1] == "Eq"
+            if ok1:
+                l, r = c[2], c[3]
+                if is_token(r) and r[0] == "read" and r[1] == var:
+                    l, r = r, l
+                ok1 = is_token(l) and l[0] == "read" and l[1] == var and is_token(r) and r[0] == "tr" and r[1] == ("read", psd, l[2])
+            if not ok1:
+                oke, msge = False, "a solver constraint of the block is `%r`, expected M[i, j] == translation(LMI[i, j])" % (c,)
+                break
+            got.append(l[2])
+        if not oke:
+            break
+        import itertools as _it2
+        if sorted(got) != sorted(_it2.product(range(size), repeat=2)):
+            oke, msge = False, "entry equalities are emitted for %s, expected every (i, j) of the %dx%d matrix once" % (sorted(got), size, size)
+            break
+    ctx.ob("R-LMIENC", "CvxpyWrapper.send_lmi_constraint_to_solver::matrix variable", okv, msgv, loc(fn, fn))
+    ctx.ob("R-LMIENC", "CvxpyWrapper.send_lmi_constraint_to_solver::entry equalities", oke, msge, loc(fn, fn))
     # MOSEK: rows, coupling coefficient and matrix variable of an LMI are decided by unrolling the task program (rules/mosekprog.py)
     from . import mosekprog
     mosekprog.r_mosek_rows(ctx)
@@ -1129,31 +960,6 @@ def r_lmienc(ctx):
            "one bar-variable is appended per LMI" if okb else "bar-variables appended %d times / in a loop" % len(av), loc(fn, fn))
 
 
-def _fold(e, diag, ij=("i", "j")):
-    """Constant folding of the coupling coefficient with (i == j) = diag."""
-    if isinstance(e, ast.Constant) and isinstance(e.value, (int, float)):
-        return Fraction(repr(e.value)) if isinstance(e.value, float) else Fraction(e.value)
-    if isinstance(e, ast.UnaryOp) and isinstance(e.op, ast.USub):
-        return -_fold(e.operand, diag, ij)
-    if isinstance(e, ast.BinOp):
-        a, b = _fold(e.left, diag, ij), _fold(e.right, diag, ij)
-        if isinstance(e.op, ast.Add):
-            return a + b
-        if isinstance(e.op, ast.Sub):
-            return a - b
-        if isinstance(e.op, ast.Mult):
-            return a * b
-        if isinstance(e.op, ast.Div):
-            return a / b
-    if isinstance(e, ast.Compare) and len(e.ops) == 1 and {src(e.left), src(e.comparators[0])} == set(ij):
-        if isinstance(e.ops[0], ast.Eq):
-            return Fraction(1 if diag else 0)
-        if isinstance(e.ops[0], ast.NotEq):
-            return Fraction(0 if diag else 1)
-    if isinstance(e, ast.IfExp):
-        t = _fold(e.test, diag, ij)
-        return _fold(e.body, diag, ij) if t else _fold(e.orelse, diag, ij)
-    raise AnalysisError("coupling coefficient `%s` outside the analysed fragment" % src(e))
 
 
 # ---------------------------------------------------------------------------------------------------
@@ -1238,75 +1044,109 @@ def r_trilorder(ctx):
 
 
 def r_psdstore(ctx):
-    """PSDMatrix keeps Expression entries, turns a scalar entry c into the constant expression {1: c}, and rejects anything else; the matrix is square.
-    Decided per entry kind by path enumeration of the conversion loop body (aliases of the entry resolved)."""
-    from ..absint import PathEval, bool_decider
+    """The LMI constructor as a program (sa/miniint.py), on 2x2 and 3x3 matrices mixing expressions and scalars, written asymmetrically: every entry
+    (i, j) of the stored matrix is the Expression given at (i, j), or the constant expression {1: c} of the scalar c given at (i, j) -- entry by
+    entry, nothing mirrored or skipped; any other kind of entry, wherever it sits, raises; the caller's matrix is left as it was (the constructor
+    works on a copy); the LMI gets its own identifier."""
+    from ..miniint import IndexInterp, SymObj, Matrix
     cls = ctx.repo.cls("PSDMatrix")
     init = cls.methods["__init__"]
-    # the conversion routine is the method whose result becomes self.matrix_of_expressions
-    fn = None
-    for s0 in init.body:
-        if isinstance(s0, ast.Assign) and dotted(s0.targets[0]) == "self.matrix_of_expressions" and isinstance(s0.value, ast.Call):
-            fn = cls.find_method(call_name(s0.value))
-    if fn is None:
-        # the conversion may have been inlined into the constructor
-        fn = init
-    ctx.unit(qualname(fn))
-    stores = [a for a in ast.walk(fn) if isinstance(a, ast.Assign) and isinstance(a.targets[0], ast.Subscript) and isinstance(a.value, ast.Call) and call_name(a.value) == "Expression"]
-    ok = False
-    msg = "no conversion of scalar entries found"
-    if len(stores) == 1:
-        st = stores[0]
-        entry_txt = " ".join(src(st.targets[0]).split())
-        lp = flow.in_loop(st)
-        body = lp.body if lp is not None else fn.body
-        results = {}
-        for kind in ("Expression", "int", "float", "str"):
-            def atom(t, kind=kind):
-                if isinstance(t, ast.Call) and call_name(t) == "isinstance" and len(t.args) == 2 and " ".join(src(t.args[0]).split()) == entry_txt:
-                    ks = t.args[1].elts if isinstance(t.args[1], ast.Tuple) else [t.args[1]]
-                    return kind in {dotted(k) for k in ks}
-                return None
-            f = ast.FunctionDef(name="_entry", args=ast.arguments(posonlyargs=[], args=[], kwonlyargs=[], kw_defaults=[], defaults=[]), body=body, decorator_list=[])
-            ps = PathEval(f, bool_decider(atom), loop_mode="once").run()
-            outs = set()
-            for p in ps:
-                conv = [ev for ev in p.trace if isinstance(ev, ast.Assign) and isinstance(ev.targets[0], ast.Subscript) and " ".join(src(ev.targets[0]).split()) == entry_txt]
-                if p.kind == "raise":
-                    outs.add("raise " + p.exc)
-                elif conv:
-                    v = conv[0].value
-                    dd = get_arg(v, 1, "decomposition_dict") if isinstance(v, ast.Call) and call_name(v) == "Expression" else None
-                    good = dd is not None and isinstance(dd, ast.Dict) and len(dd.keys) == 1 and is_const(dd.keys[0], 1) and is_const(get_arg(v, 0, "is_leaf"), False)
-                    if good:
-                        val = dd.values[0]
-                        vt = " ".join(src(val).split())
-                        if vt != entry_txt and isinstance(val, ast.Name):
-                            d = [a for a in ast.walk(f) if isinstance(a, ast.Assign) and dotted(a.targets[0]) == val.id]
-                            vt = " ".join(src(d[0].value).split()) if len(d) == 1 else vt
-                        good = vt == entry_txt
-                    outs.add("constant-expression" if good else "converted to `%s`" % src(v)[:60])
-                else:
-                    outs.add("kept")
-            results[kind] = outs
-        want = {"Expression": {"kept"}, "int": {"constant-expression"}, "float": {"constant-expression"}, "str": {"raise TypeError"}}
-        ok = results == want
-        msg = "Expression entries are kept, a scalar c becomes the constant expression {1: c}, anything else raises TypeError" if ok else \
-            "per entry kind the conversion gives %s, expected %s" % ({k: sorted(v) for k, v in results.items()}, {k: sorted(v) for k, v in want.items()})
-    ctx.ob("R-PSDSTORE", "PSDMatrix::entry conversion", ok, msg, loc(fn, fn))
-    # the stored matrix is a copy: the conversion writes into it, and the caller may refill its own array for the next LMI
-    ws = [w0 for w0 in effects.writes_of(ctx.repo, fn) if w0.kind == "keyed" and not (w0.root == "fresh")]
-    ctx.ob("R-PSDSTORE", "PSDMatrix::stores a copy", not ws,
-           "the conversion writes into a new array, never into the caller's object" if not ws else
-           "entries are written into `%s`, which can be the caller's own array (%s): the stored LMI aliases it, and refilling that array for another LMI changes this one"
-           % (ws[0].path, ws[0].root), loc(fn, ws[0].node) if ws else loc(fn, fn))
-    sq = [a for a in ast.walk(fn) if isinstance(a, ast.Assert) and "shape" in src(a.test)]
-    ctx.ob("R-PSDSTORE", "PSDMatrix::square", bool(sq), "the matrix is asserted square" if sq else "no squareness assertion", loc(fn, fn))
-    okc = any(isinstance(s0, ast.Assign) and dotted(s0.targets[0]) == "self.shape" and src(s0.value) == "self.matrix_of_expressions.shape" for s0 in init.body)
-    ctx.ob("R-PSDSTORE", "PSDMatrix.__init__", okc, "stores the converted matrix and its shape" if okc else "does not store the shape of the converted matrix", loc(init, init))
-    gi = cls.methods.get("__getitem__")
-    okg = gi is not None and any(isinstance(r, ast.Return) and src(r.value) == "self.matrix_of_expressions[%s]" % params_of(gi)[1] for r in ast.walk(gi))
-    ctx.ob("R-PSDSTORE", "PSDMatrix.__getitem__", okg, "indexing reads the stored matrix" if okg else "indexing does not read the stored matrix", loc(gi, gi) if gi else cls.module.rel)
+    ctx.unit(qualname(init))
+    ps = params_of(init)
+    mparam = ps[1]
+
+    def build(entries, n):
+        m = Matrix("given", (n, n))
+        for (i, j), v in entries.items():
+            m.writes[(i, j)] = v
+        return m
+
+    def run(entries, n, copy_fns=("array",)):
+        given = build(entries, n)
+        created = []
+
+        def on_call(node, it):
+            nm = call_name(node)
+            if nm in ("array", "asarray", "copy", "deepcopy", "array_equal") and len(node.args) >= 1 and not isinstance(node.func, ast.Name) or \
+                    (nm == "copy" and isinstance(node.func, ast.Attribute) and not node.args):
+                src0 = it.ev(node.args[0]) if node.args else it.ev(node.func.value)
+                if isinstance(src0, Matrix):
+                    if nm == "asarray":
+                        return src0                 # numpy: no copy when the argument already is an array
+                    c = Matrix("stored", src0.shape)
+                    c.writes = dict(src0.writes)
+                    return c
+            if isinstance(node.func, ast.Name) and nm == "Expression":
+                kw = {k.arg: it.ev(k.value) for k in node.keywords if k.arg}
+                leaf = kw.get("is_leaf", it.ev(node.args[0]) if node.args else True)
+                dd = kw.get("decomposition_dict", it.ev(node.args[1]) if len(node.args) > 1 else None)
+                o = SymObj("Expression", label="converted", _is_leaf=leaf, decomposition_dict=dd)
+                created.append(o)
+                return o
+            return NotImplemented
+        env = {mparam: given, "PSDMatrix.counter": 7, "Expression": ("type", "Expression"), "int": ("type", "int"), "float": ("type", "float")}
+        for p0 in ps[2:]:
+            env[p0] = None
+        it = IndexInterp(env, on_call=on_call)
+        it.run(init.body)
+        return given, it.env.get("self.matrix_of_expressions"), it
+    E = lambda k: SymObj("Expression", label="e%d" % k)
+    msg = None
+    for n in (2, 3):
+        exprs = {}
+        k = 0
+        entries = {}
+        for i in range(n):
+            for j in range(n):
+                k += 1
+                entries[(i, j)] = E(k) if (i + 2 * j) % 3 == 0 else (k if k % 2 else k + 0.5)
+        before = dict(entries)
+        try:
+            given, stored, it = run(entries, n)
+        except AnalysisError as e:
+            msg = "constructor not interpretable on a %dx%d matrix: %s" % (n, n, e)
+            break
+        if not isinstance(stored, Matrix) or stored.shape != (n, n):
+            msg = "the constructor stores `%r`, not an %dx%d array" % (stored, n, n)
+            break
+        for (i, j), v in before.items():
+            got = stored.get((i, j))
+            if isinstance(v, SymObj):
+                if got is not v:
+                    msg = "entry (%d, %d) was the expression %s, the stored matrix holds `%r` there" % (i, j, v.attrs["label"], got)
+                    break
+            else:
+                okc = isinstance(got, SymObj) and got.kind == "Expression" and got.attrs.get("_is_leaf") is False and isinstance(got.attrs.get("decomposition_dict"), dict) \
+                    and list(got.attrs["decomposition_dict"].keys()) == [1] and got.attrs["decomposition_dict"][1] == v
+                if not okc:
+                    msg = "entry (%d, %d) was the scalar %r, the stored matrix holds `%r` there (expected the constant expression {1: %r})" % (
+                        i, j, v, getattr(got, "attrs", got), v)
+                    break
+        if msg:
+            break
+        if stored is given or any(given.get(k0) is not v0 and given.get(k0) != v0 for k0, v0 in before.items()):
+            msg = "the constructor writes into the caller's matrix (it is not working on a copy): the declared LMI and the caller's data alias each other"
+            break
+        if it.env.get("self.counter") != 7 or it.env.get("PSDMatrix.counter") != 8:
+            msg = "the LMI identifier is %r and the class counter becomes %r (expected 7 and 8)" % (it.env.get("self.counter"), it.env.get("PSDMatrix.counter"))
+            break
+        # an entry of another kind raises, wherever it sits
+        for pos in ((0, 0), (n - 1, 0), (0, n - 1)):
+            bad_entries = dict(before)
+            bad_entries[pos] = "a string"
+            try:
+                run(bad_entries, n)
+                msg = "an entry of another kind (a string) at %s is accepted" % (pos,)
+                break
+            except AnalysisError as e:
+                if "raises" not in str(e):
+                    msg = "constructor not interpretable: %s" % e
+                    break
+        if msg:
+            break
+    ctx.ob("R-PSDSTORE", "PSDMatrix.__init__::entries stored as given, on a copy", msg is None,
+           "every entry is kept (expression) or converted to {1: c} (scalar) at its own position, other kinds raise, the caller's matrix is untouched" if msg is None else msg,
+           loc(init, init))
 
 
 def r_mosekrow(ctx):
